@@ -49,6 +49,21 @@ theorem mem_mustKeys (f : Function) (r : List Loc) (d : Loc) (x : Scalar) :
   · rintro ⟨h1, h2⟩
     exact ⟨d, h1, x, h2, rfl⟩
 
+theorem buildM_total {κ β : Type} (g : κ → Option β) :
+    ∀ (ks : List κ) (t : List (κ × β)), buildM g ks = some t → ∀ k ∈ ks, ∃ v, g k = some v := by
+  intro ks
+  induction ks with
+  | nil => intro t _ k hk; cases hk
+  | cons k0 ks ih =>
+    intro t h k hk
+    unfold buildM at h
+    split at h
+    · rename_i v0 r hv0 hr
+      rcases List.mem_cons.1 hk with hk | hk
+      · exact ⟨v0, hk ▸ hv0⟩
+      · exact ih r hr k hk
+    · cases h
+
 /-- `mustInclude`: reachable writers of `x` that reach `l` with no later writer of `x` -/
 theorem tables_must {f : Function} {T : Tables} (h : tables f = some T) (l : Loc) (x : Scalar) (d : Loc) :
     d ∈ mustInclude T l x ↔ d ∈ T.reach ∧ x ∈ writtenBy f d ∧ Reaches (succNoW f x) d l := by
@@ -66,22 +81,7 @@ theorem tables_must {f : Function} {T : Tables} (h : tables f = some T) (l : Loc
     exact hreach
   · rintro ⟨h1, h2, h3⟩
     have hk := (mem_mustKeys f T.reach d x).2 ⟨h1, h2⟩
-    -- the table has an entry for every key (buildM answered)
-    have : ∃ s, flows f (d, x) = some s := by
-      have hbm := (tables_some h).2.1
-      clear hb
-      generalize mustKeys f T.reach = ks at hk hbm
-      generalize T.must = t at hbm
-      induction ks generalizing t with
-      | nil => cases hk
-      | cons k ks ih =>
-        unfold buildM at hbm
-        split at hbm
-        · rename_i v0 r hv0 hr
-          rcases List.mem_cons.1 hk with hk | hk
-          · exact ⟨v0, hk ▸ hv0⟩
-          · exact ih hk r hr
-        · cases hbm
+    have : ∃ s, flows f (d, x) = some s := buildM_total _ _ _ (tables_some h).2.1 _ hk
     obtain ⟨s, hs⟩ := this
     refine ⟨s, (hb (d, x) s).2 ⟨hk, hs⟩, ?_⟩
     exact (reach_spec _ _ _ _ hs l).2 ⟨d, List.mem_singleton.2 rfl, h3⟩
@@ -128,21 +128,6 @@ theorem mem_mayKeys (f : Function) (d : Loc) (x : Scalar) :
     exact hx'
   · intro h
     exact ⟨d, mem_allLocs_of_defOf h, x, h, rfl⟩
-
-theorem buildM_total {κ β : Type} (g : κ → Option β) :
-    ∀ (ks : List κ) (t : List (κ × β)), buildM g ks = some t → ∀ k ∈ ks, ∃ v, g k = some v := by
-  intro ks
-  induction ks with
-  | nil => intro t _ k hk; cases hk
-  | cons k0 ks ih =>
-    intro t h k hk
-    unfold buildM at h
-    split at h
-    · rename_i v0 r hv0 hr
-      rcases List.mem_cons.1 hk with hk | hk
-      · exact ⟨v0, hk ▸ hv0⟩
-      · exact ih r hr k hk
-    · cases h
 
 /-- `mayInclude`: assignments / loads of `x` that reach `l` with no intervening assignment / load of `x` -/
 theorem tables_may {f : Function} {T : Tables} (h : tables f = some T) (l : Loc) (x : Scalar) (d : Loc) :
